@@ -40,6 +40,36 @@ class Case:
             self._ref = Ref(self.rows)
         return self._ref
 
+    @property
+    def lat(self):
+        return self.ctx.lattice
+
+    def align(self):
+        """Real Concept objects aligned with ``ref.concepts`` (same position =
+        same extent), or None when the concept sets differ or repeat (that is
+        C03's business; dependent properties report it as a failed precondition)."""
+        if getattr(self, '_aligned', False) is False:
+            by_extent = {}
+            real = list(self.lat)
+            for c in real:
+                by_extent.setdefault(frozenset(c.extent), []).append(c)
+            res = []
+            ok = len(real) == len(self.ref.concepts)
+            for e, i in self.ref.concepts:
+                lst = by_extent.get(frozenset(self.olab(e)))
+                if not lst or len(lst) != 1 or frozenset(lst[0].intent) != frozenset(self.plab(i)):
+                    ok = False
+                    break
+                res.append(lst[0])
+            self._aligned = res if ok else None
+            if ok:
+                self._pos = {id(c): k for k, c in enumerate(res)}
+        return self._aligned
+
+    def pos(self, concept):
+        """R1 index of a real concept object (identity), or None if foreign."""
+        return self._pos.get(id(concept))
+
     def olab(self, positions):
         return tuple(self.objs[i] for i in sorted(positions))
 
@@ -66,6 +96,12 @@ class Case:
                 f'properties = {list(self.props)!r}\n'
                 f'rows = {[tuple(r) for r in self.rows]!r}\n'
                 f'c = concepts.Context(objects, properties, rows)\n')
+
+
+def misaligned(prop, case):
+    return common.violation(prop, 'precondition-concept-set', case.ident(),
+                            'lattice members == formal concepts of the table (C03)',
+                            [(list(c.extent), list(c.intent)) for c in case.lat])
 
 
 def case_from_ident(ident):
@@ -144,6 +180,7 @@ def run_shard_generic(shard, tier, prop, check_case, both_labelings=True,
 def main_e1(mod, tier):
     t0 = time.time()
     res = common.Result(mod.ID)
+    res.expected_hits = tuple(getattr(mod, 'HITS', ()))
     budget = getattr(mod, 'BUDGET', {'quick': 300, 'thorough': 3600})[tier]
     common.run_pool(res, mod.__name__, 'run_shard', mod.shards(tier), tier, budget_s=budget)
     if hasattr(mod, 'post'):
